@@ -258,8 +258,156 @@ def scenarios(tier: str) -> list[tuple]:
                             (ci, nchunks), tier))
     return out
 
+# ---------------------------------------------------------------------------------------------
+# Part B: RDBStorage over SQLite - the victim dies before every SQL statement and every commit
+# ---------------------------------------------------------------------------------------------
+RDB_IDS = {"s": 1, "t_v": 1, "t_s": 2}  # SQLite ids start at 1
+RDB_VICTIM_CALLS = dict(VICTIM_CALLS, delete_study=("delete_study", "s"), create_waiting=("create_trial", "s", "wait"),
+                        study_attr=("study_attr", "s", "k", [1]))
+
+
+def rdb_reference(calls: list[tuple]) -> Any:
+    backends.reset_uuid()
+    path = backends.new_sqlite_file()
+    st = backends.open_rdb(path)
+    last = "ok"
+    try:
+        for c in calls:
+            try:
+                do_op(st, c, RDB_IDS)
+                last = "ok"
+            except Exception as e:
+                last = type(e).__name__
+        return dump(st), last
+    finally:
+        st.engine.dispose()
+        os.unlink(path)
+
+
+def rdb_crash_run(victim: str, crash_at: int | None, survivor_call: str | None, cached: bool) -> dict:
+    from optuna.storages._cached_storage import _CachedStorage
+
+    from . import sqlx, thx
+    from .explore import Chooser as _Chooser
+
+    backends.reset_uuid()
+    path = backends.new_sqlite_file()
+    opened = []
+
+    def mk() -> Any:
+        r = backends.open_rdb(path)
+        opened.append(r)
+        sqlx.attach(r)
+        return _CachedStorage(r) if cached else r
+
+    try:
+        s0 = mk()
+        for c in SETUP:
+            do_op(s0, c, RDB_IDS)
+        surv = mk()
+        dump(surv)  # the survivor has read the database before the crash (warm caches)
+        vic = mk()
+        thx.set_instrumented([])
+        sched = thx.Sched(_Chooser())
+        world = sqlx.SqlWorld(sched)
+        if crash_at is not None:
+            world.crash_plan = {0: crash_at}
+        sqlx.activate(world)
+        st = {"acked": False, "raised": None}
+
+        def body() -> None:
+            try:
+                do_op(vic, RDB_VICTIM_CALLS[victim], RDB_IDS)
+                st["acked"] = True
+            except sqlx.Crashed:
+                opened[-1].engine.dispose()
+                world.proc_died(0)
+            except InternalError:
+                raise
+            except Exception as e:
+                st["raised"] = f"{type(e).__name__}: {str(e)[:80]}"
+
+        try:
+            sched.run([body])
+        finally:
+            sqlx.activate(None)
+        n_stmt = world.n_stmt.get(0, 0)
+        res = None
+        if survivor_call is not None:
+            try:
+                do_op(surv, SURVIVOR_CALLS[survivor_call], RDB_IDS)
+                res = "ok"
+            except Exception as e:
+                res = f"{type(e).__name__}: {str(e)[:80]}"
+        obs = {"survivor": dump(surv)}
+        try:
+            obs["fresh"] = dump(mk())
+        except Exception as e:
+            obs["fresh"] = ("err", f"{type(e).__name__}: {str(e)[:80]}")
+        return {"acked": st["acked"], "raised": st["raised"], "n_stmt": n_stmt, "survivor_result": res, "obs": obs,
+                "sql": world.log[-12:]}
+    finally:
+        for r in opened:
+            try:
+                r.engine.dispose()
+            except Exception:
+                pass
+        if os.path.exists(path):
+            os.unlink(path)
+
+
+def rdb_task(task: tuple) -> dict:
+    _, victim, cached, tier = task
+    backends.setup_determinism()
+    part = Part()
+    dry = rdb_crash_run(victim, None, None, cached)
+    n = dry["n_stmt"]
+    part.add("crash_points", n)
+    call = RDB_VICTIM_CALLS[victim]
+    conts = [None, "create_trial", "read"] + (["user_attr", "finish"] if tier == "thorough" else [])
+    refs: dict = {}
+
+    def allowed(cont: str | None) -> list:
+        if cont not in refs:
+            tail = [SURVIVOR_CALLS[cont]] if cont else []
+            refs[cont] = [rdb_reference(SETUP + tail), rdb_reference(SETUP + [call] + tail)]
+        return refs[cont]
+
+    outs: set = set()
+    for k in [None] + list(range(n)):
+        for cont in conts:
+            ex = rdb_crash_run(victim, k, cont, cached)
+            part.add("executions")
+            part.add("transitions", ex["n_stmt"])
+            cfg = "cached-rdb" if cached else "rdb"
+            rep = {"engine": "procx/SQL+crash", "config": cfg, "victim": victim, "crash_before_statement": k,
+                   "survivor_call": cont, "acked": ex["acked"], "sql_tail": ex["sql"]}
+            if ex["raised"]:
+                part.violation(f"rdb-sqlite|{cfg}|victim-call-raised-without-crash", dict(rep, detail=ex["raised"]))
+            ok_pairs = allowed(cont)  # [(state, survivor outcome) without the victim's call, ... with it]
+            cand = [ok_pairs[1]] if ex["acked"] else ok_pairs
+            sres = None if ex["survivor_result"] is None else ex["survivor_result"].split(":")[0]
+            if cont is not None and sres not in [o for _, o in cand]:
+                part.violation(f"rdb-sqlite|{cfg}|survivor-call-raised:{cont}:{sres}", dict(rep, detail=ex["survivor_result"]))
+                continue
+            want = [st_ for st_, o in cand if cont is None or o == sres]
+            for who, o in ex["obs"].items():
+                outs.add(str(o)[:2000])
+                if isinstance(o, tuple) and len(o) == 2 and o[0] == "err":
+                    part.violation(f"rdb-sqlite|{cfg}|{who}-cannot-read", dict(rep, detail=o[1]))
+                elif o not in want:
+                    clause = "acknowledged-call-lost" if ex["acked"] else "state-not-acked-or-acked+1"
+                    part.violation(f"rdb-sqlite|{cfg}|{who}|{clause}", rep)
+    part.add("scenarios")
+    part.add("states", len(outs))
+    part.sample({"config": "cached-rdb" if cached else "rdb", "victim": victim, "statement_boundaries": n}, cap=1)
+    return part.out()
+
+
 
 def task_fn(task: tuple) -> dict:
+    if task[0] == "rdb":
+        return rdb_task(task)
     lock, victim, conts, pairs, bound, (ci, nchunks), tier = task
     backends.setup_determinism()
     simfs.install()
@@ -329,6 +477,11 @@ def run(tier: str, replay: str | None = None) -> int:
     backends.setup_determinism()
     ctx = Ctx(PID, tier, "fault_enumeration")
     tasks = scenarios(tier)
+    backends.sqlite_template()
+    for victim in RDB_VICTIM_CALLS:
+        tasks.append(("rdb", victim, False, tier))
+        if tier == "thorough" or victim in ("create_template", "finish", "delete_study"):
+            tasks.append(("rdb", victim, True, tier))
     pmap(ctx, task_fn, tasks)
     ctx.cov["evaluations"] = ctx.cov.get("executions", 0)
     ctx.cov["distinct_nontrivial"] = ctx.cov.get("states", 0)
@@ -336,12 +489,13 @@ def run(tier: str, replay: str | None = None) -> int:
         "crash = process death: bytes already written stay, nothing later happens; power loss / un-fsynced page cache is out of scope",
         "one crash per run; the victim runs alone until it dies, then the survivors (opened before the crash) run",
         "the clock jumps past the lock grace period only when no live process can make progress",
-        "reference = the same calls one at a time on JournalStorage over a Python list",
+        "reference = the same calls one at a time on JournalStorage over a Python list (journal part) / on a fresh SQLite database (RDB part)",
+        "RDB part: crash = the victim's session is closed without commit (process death + SQLite hot-journal rollback); crashes inside SQLite's own commit are SQLite's atomic-commit guarantee (trusted)",
     ]
     backends.cleanup_root()
     return ctx.finish(
         exhaustive=not ctx.cov.get("caps_hit"),
-        rule="victim history x EVERY syscall boundary and EVERY byte offset of every record write x every survivor continuation (1 survivor: sequential; 2 survivors: all interleavings up to preemption bound 2 quick / 3 thorough, state-cached) x both lock classes; distinct_nontrivial = distinct (final state, survivor results) outcomes",
+        rule="SQLite: every storage call of a 10-call menu x death before EVERY SQL statement and commit x survivor continuation (survivor opened before the crash, raw and cached) + fresh opener; journal: victim history x EVERY syscall boundary and EVERY byte offset of every record write x every survivor continuation (1 survivor: sequential; 2 survivors: all interleavings up to preemption bound 2 quick / 3 thorough, state-cached) x both lock classes; distinct_nontrivial = distinct (final state, survivor results) outcomes",
     )
 
 
